@@ -76,6 +76,52 @@ def check_name(ws, out, cases):
     return styled
 
 
+
+def class_key_checks(out, rng):
+    """the keys of instance.dict(rename=S) are the canonical S-spellings of the Python field names, whatever the class's own
+    rename options and the fields' explicit names are; the keys of into_data() under a class-level out_rename=S are the canonical
+    S-spellings for fields without explicit names"""
+    import types as pytypes
+    import pane
+    import terms
+    n = 0
+    canon = {'snake': lambda ws: '_'.join(ws), 'scream': lambda ws: '_'.join(w.upper() for w in ws), 'kebab': lambda ws: '-'.join(ws),
+             'camel': lambda ws: ws[0] + ''.join(w.title() for w in ws[1:]), 'pascal': lambda ws: ''.join(w.title() for w in ws)}
+    names = [['user', 'name'], ['user', 'id'], ['home', 'dir'], ['x']]
+    for cls_style in [None] + STYLES:
+        for explicit in (False, True):
+            ann = {'_'.join(ws): int for ws in names}
+            ns = {'__annotations__': ann}
+            for i, ws in enumerate(names):
+                ns['_'.join(ws)] = i
+            if explicit:
+                ns['user_id'] = pane.field(default=1, rename='uid')
+                ns['home_dir'] = pane.field(default=2, out_name='user-name' if cls_style != 'kebab' else 'uName', in_names=['home_dir'])
+            opts = {} if cls_style is None else {'rename': cls_style}
+            try:
+                cls = pytypes.new_class(terms.fresh_name('Rk'), (pane.PaneBase,), opts, lambda d: d.update(ns))
+            except Exception:
+                continue
+            terms.KEEP.append(cls)
+            x = cls()
+            for s in STYLES:
+                for set_only in (False, True):
+                    n += 1
+                    inst = cls(**{'_'.join(ws): 5 for ws in names}) if set_only else x
+                    got = list(inst.dict(rename=s, set_only=set_only).keys())
+                    want = [canon[s](ws) for ws in names]
+                    if sorted(got) != sorted(want) or (not set_only and got != want):
+                        out.violation('C20:dict-rename-keys', f'class rename={cls_style!r}, explicit field names={explicit}: dict(rename={s!r}, set_only={set_only}) has keys '
+                                      f'{got}, expected the canonical {s} spellings {want}', {'class_style': cls_style, 'style': s, 'explicit': explicit})
+            if cls_style is not None and not explicit:
+                n += 1
+                got = list(x.into_data().keys())
+                want = [canon[cls_style](ws) for ws in names]
+                if got != want:
+                    out.violation('C20:into_data-keys', f'class rename={cls_style!r}: into_data() has keys {got}, expected {want}', {'class_style': cls_style})
+    return n
+
+
 def run(ctx, out):
     rng = random.Random(ctx['seed'])
     tier = ctx['tier']
@@ -106,6 +152,7 @@ def run(ctx, out):
                 if a != b:
                     out.violation(f'C20:pairs:{s}:{s2}', f"rename_field({m!r},{s2!r})={a!r} but rename_field({n!r},{s2!r})={b!r}",
                                   {'name': n, 'via': s, 'to': s2, 'got': a, 'want': b})
+    out.evaluations += class_key_checks(out, rng)
     mal = malformed_names(tier)
     for n in mal:
         for s in STYLES:
